@@ -142,10 +142,12 @@ def main():
         "engines": [
             {"name": "tsgv", "path": "/verif/harness", "serves_properties": sorted(k for k in CHECKS if CHECKS[k]),
              "kind_free_text": "Rust harness: proptest-driven choice tapes, reference models, shrinking, replay"},
+            {"name": "tsgv-fuzz", "path": "/verif/fuzz", "serves_properties": ["C05", "C18"],
+             "kind_free_text": "cargo-fuzz / libFuzzer targets (c05_load_exec, c05_tape, c18_parse_errors) that call the harness library; built and driven by the thorough tiers of C05 and C18"},
         ],
         "checks": checks,
         "not_applicable": na,
-        "notes": "All checks: ./check <ID> quick|thorough (exit 0 held, 1 VIOLATION, 2 harness problem/inconclusive). VERIF_SEED selects the PRNG stream. Known findings: /verif/known_findings.json.",
+        "notes": "All checks: ./check <ID> quick|thorough (exit 0 held, 1 VIOLATION, 2 harness problem/inconclusive). VERIF_SEED selects the PRNG stream; VERIF_HANG_SECS (default 600) is the per-case watchdog (exit 2). Known findings: /verif/known_findings.json. Sensitivity material: /verif/seeded (240 sub-agent changes with demonstrations and meta.json), /verif/mutants (patches; mutants/iso.sh runs one without touching /repo).",
     }
     with open(os.path.join(ROOT, "MANIFEST.json"), "w") as f:
         json.dump(manifest, f, indent=1)
